@@ -3,7 +3,10 @@ from . import orch_common
 
 
 def main(tier, seed):
-    chk = orch_common.run("C04", tier, seed, technique="DSE of the real main.py/scalar_function.py/bfgsmats.py with contract stubs for the kernels and uninterpreted user callables; z3 per path; scenario replay on the real API")
+    # restart from a result whose run had ended abnormally (success False), with targets that may already be met
+    extra = [dict(maxiter=3, maxfun=6, maxls=2, ftol="sym", ftarget_kind="float", checkpoint=1, ck_nit=2, ck_nfev=3, ck_pairs=1, ck_abnormal=1, ls_mode="contract", ls_tmax=2, groups=["C04"]),
+             dict(maxiter=1, maxfun=6, maxls=2, ftol="sym", ftarget_kind="callable", checkpoint=1, ck_nit=2, ck_nfev=3, ck_pairs=0, ck_abnormal=1, ls_mode="contract", ls_tmax=2, groups=["C04"])]
+    chk = orch_common.run("C04", tier, seed, extra_jobs=extra, technique="DSE of the real main.py/scalar_function.py/bfgsmats.py with contract stubs for the kernels and uninterpreted user callables; z3 per path; scenario replay on the real API")
     # The evaluation bound nfev <= max(maxfun, n0) + 1 rests on one premise about the line search, which the run-level
     # harness stubs: called with max_iter = min(maxls, maxfun - nfev) it makes at most max_iter evaluations.  That premise
     # is decided here on the real line_search (the C11 harness, budget obligation only).
